@@ -33,6 +33,12 @@ Violations == {
    <<208, 191, DOT, DOT>> \o com, <<DOT, 208, 191>>,      \* empty labels
    <<208, 191, SP, DOT>> \o com, <<208, 191, USCORE, 208, 191, DOT>> \o com }
 
+\* long U-label spellings: 240..300 UTF-8 octets whose A-label form stays well below the 253 limit
+Pn(n) == [i \in 1..(2 * n) |-> IF i % 2 = 1 THEN 208 ELSE 191]
+rf == <<209, 128, 209, 132>>
+LongU == { JoinWith(<<Pn(n), Pn(n), Pn(n), rf>>, DOT) : n \in 36..50 } \cup
+         { JoinWith(<<Pn(n), Pn(n), Pn(n), Pn(n), rf>>, DOT) : n \in 28..36 } \cup
+         { JoinWith(<<Pn(n), <<97>>, rf>>, DOT) : n \in {56, 57, 58, 59, 60, 62, 64} }
 Init == d = <<>> /\ k = 0
 Next == \/ Part = 1 /\ k < MaxLabels /\ \E l \in Labels : d' = (IF k = 0 THEN l ELSE d \o <<DOT>> \o l) /\ k' = k + 1
         \/ Part = 2 /\ k = 0 /\ \E i \in {j \in 1..NRows : TldU[j] # TldRows[j][1]} :
@@ -40,6 +46,7 @@ Next == \/ Part = 1 /\ k < MaxLabels /\ \E l \in Labels : d' = (IF k = 0 THEN l 
                                                     [] v = 2 -> TldU[i] \o <<DOT>> \o TldU[i]
                                                     [] v = 3 -> <<208, 191, DOT>> \o TldU[i]
         \/ Part = 3 /\ k = 0 /\ \E v \in Violations : d' = v /\ k' = 1
+        \/ Part = 2 /\ k = 0 /\ \E v \in LongU : d' = v /\ k' = 1
 MustReject == Part = 3
 Inv == k >= 1 => PrintT(ToJson(<<17, IF MustReject THEN 1 ELSE 0, Len(d)>> \o d))
 =============================================================================
